@@ -1,12 +1,201 @@
-(* C12/Props.v -- the property theorems, and nothing else. *)
+(* C12/Props.v -- the property theorems, and nothing else.  [merge_side zero unit ps] is the model of
+   the channel / template side of Merger.merge on the probes ps (Model.v); A is the type of waveform /
+   matrix values with its zero, R the type of the sampling rate, unit > 0 the number of coordinate
+   units in the repaired code's margin 1.0.  Blocks / BlockRow / Apart / TableShift are the cell-level
+   statements of Spec.v:  Blocks P src out  =  out consists of one block per element of src, in order,
+   element i of block k at index offs k + i and related to the source element by P k. *)
 From Coq Require Import ZArith List Bool Arith Lia.
-From PV Require Import Base.NpSearch C12.Model C12.Spec C12.Proofs.
+From PV Require Import Base.NpSearch C12.Model C12.Spec C12.Proofs C12.Proofs2 C12.Proofs3.
 Import ListNotations.
 Open Scope Z_scope.
 
-(* merged parameters: the common sampling rate is kept, n_channels_dat is the sum *)
-Theorem C12_params : forall (R : Type) (ps : list (params R)) (r : R),
-  ps <> [] -> (forall p, In p ps -> pr_rate p = r) ->
-  exists m, write_params ps = Some m /\ pr_rate m = r /\ pr_ncd m = zsum (map pr_ncd ps).
-Proof. exact (@write_params_spec). Qed.
+(* the merge is defined for any number >= 1 of probes with any (non-zero) channel and template counts *)
+Theorem C12_defined : forall (A R : Type) (zero : A) (unit : Z) (ps : list (probe A R)),
+  ps <> [] -> (forall p, In p ps -> p_cm p <> [] /\ p_pos p <> []) ->
+  (exists ns, forall p, In p ps -> tshape1 (p_tmpl p) = ns) ->
+  exists m, merge_side zero unit ps = Some m.
+Proof. exact (@merge_side_defined). Qed.
+Print Assumptions C12_defined.
+
+(* channels of probe k form one contiguous block in input order: labelled k; channel-map values shifted
+   by a per-probe constant; same y and x shifted by a per-probe constant dx_k, with dx_0 = 0 *)
+Theorem C12_channel_blocks : forall (A R : Type) (zero : A) (unit : Z) (ps : list (probe A R)) m,
+  merge_side zero unit ps = Some m ->
+  ChanLabels (map p_cm ps) (m_probe m) /\ ChanMap (map p_cm ps) (m_map m) /\
+  exists dxs, length dxs = length ps /\ nth 0 dxs 0 = 0 /\
+    Blocks (fun k p o => o = shift_x (nth k dxs 0) p) (map p_pos ps) (m_pos m).
+Proof. exact (@merge_channel_blocks). Qed.
+Print Assumptions C12_channel_blocks.
+
+(* the translation keeps different probes apart: with non-negative coordinates every channel of an
+   earlier probe lies strictly left of every channel of a later probe -- for every number of probes,
+   zero-width probes included *)
+Theorem C12_apart : forall (A R : Type) (zero : A) (unit : Z) (ps : list (probe A R)) m,
+  0 < unit -> (forall p q, In p ps -> In q (p_pos p) -> 0 <= px q) ->
+  merge_side zero unit ps = Some m ->
+  Apart (map (fun p => length (p_pos p)) ps) (m_pos m).
+Proof. exact (@merge_apart). Qed.
+Print Assumptions C12_apart.
+
+(* the margin is needed: with unit = 0 (the code before the repair) two single-column probes at x = 0
+   end up on top of each other *)
+Theorem C12_apart_needs_margin : exists (ps : list (probe Z Z)) m,
+  (forall p q, In p ps -> In q (p_pos p) -> 0 <= px q) /\ merge_side 0 0 ps = Some m /\
+  ~ Apart (map (fun p => length (p_pos p)) ps) (m_pos m).
+Proof.
+  set (p := mkprobe [0] [mkxy 0 0] [[[1]]] [[0]] [[0]] None None None (mkpar 0 1 0) : probe Z Z).
+  exists [p; p]. eexists. split; [|split; [vm_compute; reflexivity|]].
+  - intros p' q [<-|[<-|[]]] [<-|[]]; cbn; lia.
+  - intros H. specialize (H 0%nat 1%nat 0%nat 0%nat (mkxy 0 0) (mkxy 0 0)). cbn in H.
+    specialize (H ltac:(lia) ltac:(lia) ltac:(lia) ltac:(lia) eq_refl eq_refl). lia.
+Qed.
+Print Assumptions C12_apart_needs_margin.
+
+(* template t of probe k is merged template toff_k + t, with the same number of samples; each sample row
+   has one cell per merged channel, carries the probe's row on the probe's block and zero elsewhere *)
+Theorem C12_template_blocks : forall (A R : Type) (zero : A) (unit : Z) (ps : list (probe A R)) m,
+  merge_side zero unit ps = Some m -> (forall p, In p ps -> RectT (p_tmpl p)) ->
+  TemplateBlocks zero (map p_tmpl ps) (m_tmpl m).
+Proof. exact (@merge_template_blocks). Qed.
+Print Assumptions C12_template_blocks.
+
+(* the same, cell by cell, with the channel counts of the channel maps:
+   T[toff_k + t][s][coff_k + c] = T_k[t][s][c], and T[toff_k + t][s][c'] = 0 for c' outside the block *)
+Theorem C12_template_cells : forall (A R : Type) (zero : A) (unit : Z) (ps : list (probe A R)) m,
+  merge_side zero unit ps = Some m ->
+  (forall p, In p ps -> RectT (p_tmpl p)) ->
+  (forall p, In p ps -> tshape2 (p_tmpl p) = length (p_cm p)) ->
+  let lens := map (fun p => length (p_cm p)) ps in
+  length (m_tmpl m) = nsum (map (fun p => length (p_tmpl p)) ps) /\
+  forall k p t tm s r, nth_error ps k = Some p -> nth_error (p_tmpl p) t = Some tm -> nth_error tm s = Some r ->
+    exists om orow,
+      nth_error (m_tmpl m) (offs (map (fun p => length (p_tmpl p)) ps) k + t) = Some om /\
+      length om = length tm /\ nth_error om s = Some orow /\ length orow = nsum lens /\
+      (forall c x, nth_error r c = Some x -> nth_error orow (offs lens k + c) = Some x) /\
+      (forall c, (c < nsum lens)%nat -> (c < offs lens k \/ offs lens k + length (p_cm p) <= c)%nat ->
+                 nth_error orow c = Some zero).
+Proof. exact (@merge_template_cells). Qed.
+Print Assumptions C12_template_cells.
+
+(* whitening matrix, its inverse, similarity matrix: block-diagonal with the per-probe matrices as
+   blocks when every probe has the file; not written when some probe lacks it *)
+Theorem C12_block_diag_wm : forall (A R : Type) (zero : A) (unit : Z) (ps : list (probe A R)) m,
+  merge_side zero unit ps = Some m ->
+  (forall Ms, map p_wm ps = map Some Ms -> (forall M, In M Ms -> RectM M) ->
+     exists out, m_wm m = Some out /\ BlockDiag zero Ms out) /\
+  ((exists p, In p ps /\ p_wm p = None) -> m_wm m = None).
+Proof. intros A R zero unit ps m. apply (merge_block_diag zero unit ps m p_wm m_wm). reflexivity. Qed.
+Print Assumptions C12_block_diag_wm.
+
+Theorem C12_block_diag_wmi : forall (A R : Type) (zero : A) (unit : Z) (ps : list (probe A R)) m,
+  merge_side zero unit ps = Some m ->
+  (forall Ms, map p_wmi ps = map Some Ms -> (forall M, In M Ms -> RectM M) ->
+     exists out, m_wmi m = Some out /\ BlockDiag zero Ms out) /\
+  ((exists p, In p ps /\ p_wmi p = None) -> m_wmi m = None).
+Proof. intros A R zero unit ps m. apply (merge_block_diag zero unit ps m p_wmi m_wmi). reflexivity. Qed.
+Print Assumptions C12_block_diag_wmi.
+
+Theorem C12_block_diag_sim : forall (A R : Type) (zero : A) (unit : Z) (ps : list (probe A R)) m,
+  merge_side zero unit ps = Some m ->
+  (forall Ms, map p_sim ps = map Some Ms -> (forall M, In M Ms -> RectM M) ->
+     exists out, m_sim m = Some out /\ BlockDiag zero Ms out) /\
+  ((exists p, In p ps /\ p_sim p = None) -> m_sim m = None).
+Proof. intros A R zero unit ps m. apply (merge_block_diag zero unit ps m p_sim m_sim). reflexivity. Qed.
+Print Assumptions C12_block_diag_sim.
+
+(* scipy's block_diag itself, for any list of rectangular matrices (square or not) *)
+Theorem C12_block_diag : forall (A : Type) (zero : A) (Ms : list (list (list A))),
+  (forall M, In M Ms -> RectM M) -> BlockDiag zero Ms (block_diag zero Ms).
+Proof. exact (@block_diag_spec). Qed.
+Print Assumptions C12_block_diag.
+
+(* per-template channel-index rows of probe k are rows toff_k + t of the merged table, shifted by the
+   probe's first merged channel coff_k; template-index rows are shifted by toff_k *)
+Theorem C12_index_tables : forall (A R : Type) (zero : A) (unit : Z) (ps : list (probe A R)) m,
+  merge_side zero unit ps = Some m ->
+  (forall p, In p ps -> length (p_tf p) = length (p_tmpl p)) ->
+  NoWrap (coffZ ps) (map p_pc ps) -> NoWrap (toffZ ps) (map p_tf ps) ->
+  TableShift (coffZ ps) (map p_pc ps) (m_pc m) /\ TableShift (toffZ ps) (map p_tf ps) (m_tf m).
+Proof. exact (@merge_index_tables). Qed.
+Print Assumptions C12_index_tables.
+
+(* merged parameters: the common sampling rate, and the summed raw channel count *)
+Theorem C12_params : forall (A R : Type) (zero : A) (unit : Z) (ps : list (probe A R)) m (r : R),
+  merge_side zero unit ps = Some m -> (forall p, In p ps -> pr_rate (p_par p) = r) ->
+  pr_rate (m_par m) = r /\ pr_ncd (m_par m) = zsum (map (fun p => pr_ncd (p_par p)) ps).
+Proof. exact (@merge_params). Qed.
 Print Assumptions C12_params.
+
+(* the boolean checkers that Corr.v runs on the implementation's output imply the statements *)
+Theorem C12_checker_sound_templates : forall (A : Type) (zero : A) (eqb : A -> A -> bool),
+  (forall x y, eqb x y = true -> x = y) ->
+  forall Ts out, template_blocks_b zero eqb Ts out = true -> TemplateBlocks zero Ts out.
+Proof. exact (@template_blocks_b_sound). Qed.
+Print Assumptions C12_checker_sound_templates.
+
+Theorem C12_checker_sound_block_diag : forall (A : Type) (zero : A) (eqb : A -> A -> bool),
+  (forall x y, eqb x y = true -> x = y) ->
+  forall Ms out, block_diag_b zero eqb Ms out = true -> BlockDiag zero Ms out.
+Proof. exact (@block_diag_b_sound). Qed.
+Print Assumptions C12_checker_sound_block_diag.
+
+Theorem C12_checker_sound_channels : forall cms poss omap oprobe opos,
+  chan_labels_b cms oprobe = true -> chan_map_b cms omap = true -> pos_blocks_b poss opos = true ->
+  ChanLabels cms oprobe /\ ChanMap cms omap /\ PosBlocks poss opos.
+Proof.
+  intros. split; [now apply chan_labels_b_sound|]. split; [now apply chan_map_b_sound|now apply pos_blocks_b_sound].
+Qed.
+Print Assumptions C12_checker_sound_channels.
+
+Theorem C12_checker_sound_tables : forall off ts out, table_shift_b off ts out = true -> TableShift off ts out.
+Proof. exact table_shift_b_sound. Qed.
+Print Assumptions C12_checker_sound_tables.
+
+(* ---- non-vacuity: three probes of unequal sizes (2, 3, 1 channels; 1, 2, 1 templates), where a
+   previous-probe offset and a cumulative offset differ ---- *)
+Definition ex_ps : list (probe Z Z) :=
+  [ mkprobe [1; 0] [mkxy 0 0; mkxy 0 80] [[[1; 2]; [3; 4]]] [[1]] [[0]]
+            (Some [[2; 0]; [0; 2]]) None (Some [[1]]) (mkpar 30000 2 0);
+    mkprobe [2; 0; 1] [mkxy 0 0; mkxy 64 0; mkxy 0 80] [[[5; 6; 7]; [8; 9; 10]]; [[11; 12; 13]; [14; 15; 16]]]
+            [[0]; [2]] [[1]; [0]] (Some [[1; 1; 0]; [0; 1; 0]; [0; 0; 1]]) None (Some [[1; 5]; [5; 1]]) (mkpar 30000 4 7);
+    mkprobe [0] [mkxy 0 40] [[[17]; [18]]] [[0]] [[0]] (Some [[3]]) None (Some [[1]]) (mkpar 30000 1 0) ].
+
+Example C12_ex_merge : merge_side 0 4 ex_ps = Some (mkmerged
+  [1; 0; 3; 1; 2; 3] [0; 0; 1; 1; 1; 2]
+  [mkxy 0 0; mkxy 0 80; mkxy 4 0; mkxy 68 0; mkxy 4 80; mkxy 132 40]
+  [ [[1; 2; 0; 0; 0; 0]; [3; 4; 0; 0; 0; 0]];
+    [[0; 0; 5; 6; 7; 0]; [0; 0; 8; 9; 10; 0]]; [[0; 0; 11; 12; 13; 0]; [0; 0; 14; 15; 16; 0]];
+    [[0; 0; 0; 0; 0; 17]; [0; 0; 0; 0; 0; 18]] ]
+  [[1]; [2]; [4]; [5]] [[0]; [2]; [1]; [3]]
+  (Some [[2; 0; 0; 0; 0; 0]; [0; 2; 0; 0; 0; 0]; [0; 0; 1; 1; 0; 0]; [0; 0; 0; 1; 0; 0]; [0; 0; 0; 0; 1; 0];
+         [0; 0; 0; 0; 0; 3]])
+  None
+  (Some [[1; 0; 0; 0]; [0; 1; 5; 0]; [0; 5; 1; 0]; [0; 0; 0; 1]])
+  (mkpar 30000 7 0)).
+Proof. vm_compute. reflexivity. Qed.
+
+(* the hypotheses of the theorems hold on it *)
+Example C12_ex_hyps :
+  (forall p, In p ex_ps -> RectT (p_tmpl p)) /\ (forall p, In p ex_ps -> tshape2 (p_tmpl p) = length (p_cm p)) /\
+  (forall p q, In p ex_ps -> In q (p_pos p) -> 0 <= px q) /\
+  (forall p, In p ex_ps -> length (p_tf p) = length (p_tmpl p)).
+Proof.
+  split; [|split; [|split]].
+  - intros p [<-|[<-|[<-|[]]]] tm r Htm Hr; cbn in Htm, Hr;
+      repeat (destruct Htm as [<-|Htm]; [repeat (destruct Hr as [<-|Hr]; [reflexivity|]); contradiction|]); contradiction.
+  - intros p [<-|[<-|[<-|[]]]]; reflexivity.
+  - intros p q [<-|[<-|[<-|[]]]] Hq; cbn in Hq; repeat (destruct Hq as [<-|Hq]; [cbn; lia|]); contradiction.
+  - intros p [<-|[<-|[<-|[]]]]; reflexivity.
+Qed.
+
+Example C12_ex_checkers :
+  template_blocks_b 0 Z.eqb (map p_tmpl ex_ps) [ [[1; 2; 0; 0; 0; 0]; [3; 4; 0; 0; 0; 0]];
+    [[0; 0; 5; 6; 7; 0]; [0; 0; 8; 9; 10; 0]]; [[0; 0; 11; 12; 13; 0]; [0; 0; 14; 15; 16; 0]];
+    [[0; 0; 0; 0; 0; 17]; [0; 0; 0; 0; 0; 18]] ] = true /\
+  (* the layout the code produced before the repair (third probe at the previous probe's width) is rejected *)
+  template_blocks_b 0 Z.eqb (map p_tmpl ex_ps) [ [[1; 2; 0; 0; 0; 0]; [3; 4; 0; 0; 0; 0]];
+    [[0; 0; 5; 6; 7; 0]; [0; 0; 8; 9; 10; 0]]; [[0; 0; 11; 12; 13; 0]; [0; 0; 14; 15; 16; 0]];
+    [[0; 0; 0; 17; 0; 0]; [0; 0; 0; 18; 0; 0]] ] = false /\
+  apart_b [2; 3; 1]%nat [mkxy 0 0; mkxy 0 80; mkxy 4 0; mkxy 68 0; mkxy 4 80; mkxy 132 40] = true /\
+  apart_b [2; 2]%nat [mkxy 0 0; mkxy 0 80; mkxy 0 0; mkxy 0 80] = false.
+Proof. vm_compute. repeat split; reflexivity. Qed.
